@@ -1006,7 +1006,7 @@ class Unit:
                     b0 = next((i for i, ch in enumerate(t.t) if ch == '{' and code[i]), -1)
                     if b0 < 0:
                         break
-                    m = re.compile(r'(?m)^(\s+)(?!pub\b)(\w+\s*:)').search(t.t, b0)
+                    m = re.compile(r'(?m)^(\s+)(?!pub\b)(\w+\s*:(?!:))').search(t.t, b0)
                     if not m:
                         break
                     t.edit('R7', m.start(), m.end(), m.group(1) + 'pub ' + m.group(2))
@@ -1266,7 +1266,7 @@ class Unit:
             self.expected_fail.add(name)
             self.fn_ranges.append((a0, len(self.lines), v['disp'] + '__vacuity', name))
             if v['header']:
-                self._emit('}')
+                self._emit('}' * max(1, v['header'].count('{') - v['header'].count('}')))
 
     def text(self):
         return '\n'.join(self.lines) + '\n'
